@@ -183,8 +183,21 @@ def putConn (l : List Conn) (c : Conn) : List Conn :=
 
 def Node.addConn (c : Conn) (nd : Node) : Node := { nd with conns := putConn nd.conns c }
 
+def Node.clearLoc (nd : Node) : Node := { nd with loc := none }
+def Node.setLoc (l : LSession) (nd : Node) : Node := { nd with loc := some l }
+def Node.addSession (s : RSession) (nd : Node) : Node := { nd with rem := nd.rem ++ [s] }
+def Node.addUser (w : User) (nd : Node) : Node := { nd with users := nd.users ++ [w] }
+def Node.setDisabled (u : String) (nd : Node) : Node :=
+  { nd with users := nd.users.map (fun v => if v.name == u then { v with disabled := true } else v) }
+def Node.setPassword (u new : String) (nd : Node) : Node :=
+  { nd with users := nd.users.map (fun v => if v.name == u then { v with password := new } else v) }
+def Node.addFile (k : Nat) (nd : Node) : Node := { nd with files := nd.files ++ [k] }
+
+/-- fresh-id counter -/
+def Net.bump (n : Net) (k : Nat) : Net := { n with nextId := k }
+
 /-- `_logout(local=True)`, not forced -/
-def Node.localLogout (nd : Node) : Node := if nd.canUsm then { nd with loc := none } else nd
+def Node.localLogout (nd : Node) : Node := if nd.canUsm then nd.clearLoc else nd
 
 /-- `remote_session.last_active_step = current_timestep` -/
 def Node.touch (cid t : Nat) (nd : Node) : Node :=
@@ -193,7 +206,13 @@ def Node.touch (cid t : Nat) (nd : Node) : Node :=
 /-- the terminal command: `apply_request(["file_system","create","file","root",<k>,False])` on the node
 (`file_system` route is guarded by the node-is-on validator). -/
 def Node.exec (nd : Node) (k : Nat) : Node × Out :=
-  if nd.isOn then ({ nd with files := nd.files ++ [k] }, .success) else (nd, .failure)
+  if nd.isOn then (nd.addFile k, .success) else (nd, .failure)
+
+/-- `LocalTerminalConnection.execute`: only while the terminal is RUNNING -/
+def Node.localExec (k : Nat) (nd : Node) : Node := if nd.term.running then (nd.exec k).1 else nd
+
+/-- what `Terminal.receive` does to the target for an accepted command -/
+def Node.remoteExec (cid t k : Nat) (nd : Node) : Node := ((nd.touch cid t).exec k).1
 
 /-! ### service lifecycle (service.py) -/
 
@@ -204,6 +223,11 @@ def Service.start (s : Service) : Service := if s.st = .stopped then { s with st
 def Verb.needs : Verb → Option SvcState
   | .stop => some .running | .start => some .stopped | .pause => some .running | .resume => some .paused
   | .restart => some .running | .disable => none | .enable => some .disabled
+
+def Verb.allowed (v : Verb) (st : SvcState) : Bool :=
+  match v.needs with
+  | some q => st == q
+  | none => true
 
 /-- the method behind the verb (node already known ON); returns the method's boolean -/
 def Service.apply (s : Service) (v : Verb) (restartDur : Nat) : Service × Bool :=
@@ -248,6 +272,9 @@ def Node.powerOff (nd : Node) : Node × Bool :=
   if nd.shutDur = 0 then ({ nd.shutDownActions with power := .off }, true)
   else if nd.power = .on then ({ nd with nic := false, power := .shuttingDown, downCd := nd.shutDur }, true)
   else (nd, false)
+
+/-- `Node.reset`: flag, then `power_off` -/
+def Node.resetOff (nd : Node) : Node := ({ nd with resetting := true } : Node).powerOff.1
 
 /-- count down to boot up -/
 def Node.bootPhase (nd : Node) : Node :=
@@ -320,15 +347,19 @@ end
 /-- `_logout(local=False, cid, force=True)` -/
 def forceLogout (n : Net) (j cid : Nat) : Net := (disconnect n.fuel n j cid).upd j (Node.dropSession cid)
 
+/-- the local part of `_logout_user` -/
+def Node.endLocalOf (u : String) (nd : Node) : Node :=
+  match nd.loc with
+  | some l => if l.user == u then nd.clearLoc else nd
+  | none => nd
+
 /-- `UserSessionManager._logout_user(user)` (repaired): every remote session of the user, then the local one -/
 def logoutUser (n : Net) (j : Nat) (u : String) : Net :=
   match n.node j with
   | none => n
   | some nd =>
     let n1 := ((nd.rem.filter (fun s => s.user == u)).map (·.id)).foldl (fun m cid => forceLogout m j cid) n
-    n1.upd j (fun nd => match nd.loc with
-      | some l => if l.user == u then { nd with loc := none } else nd
-      | none => nd)
+    n1.upd j (Node.endLocalOf u)
 
 /-! ### inactivity time-out (`UserSessionManager.pre_timestep`, `_timeout_session`) -/
 
@@ -347,7 +378,7 @@ def preTimestepNode (n : Net) (y : Nat) : Net :=
   match n.node y with
   | none => n
   | some nd =>
-    let n0 := if nd.localExpired n.time then n.upd y (fun nd => { nd with loc := none }) else n
+    let n0 := if nd.localExpired n.time then n.upd y Node.clearLoc else n
     (nd.expired n.time).foldl (fun m s => timeoutRemote m y s) n0
 
 def tick (n : Net) : Net :=
@@ -359,8 +390,8 @@ def tick (n : Net) : Net :=
 /-- `_login(local=True)` after the guards: returns the node and the session id handed back -/
 def Node.localLoginCore (nd : Node) (u : String) (t fresh : Nat) : Node × Nat × Bool :=
   match nd.loc with
-  | some l => if l.user == u then (nd, l.id, false) else ({ nd with loc := some ⟨fresh, u, t⟩ }, fresh, true)
-  | none => ({ nd with loc := some ⟨fresh, u, t⟩ }, fresh, true)
+  | some l => if l.user == u then (nd, l.id, false) else (nd.setLoc ⟨fresh, u, t⟩, fresh, true)
+  | none => (nd.setLoc ⟨fresh, u, t⟩, fresh, true)
 
 /-- `UserSessionManager.local_login`: `some id` on success -/
 def localLogin (n : Net) (y : Nat) (u p : String) : Net × Option Nat :=
@@ -368,8 +399,9 @@ def localLogin (n : Net) (y : Nat) (u p : String) : Net × Option Nat :=
   | none => (n, none)
   | some nd =>
     if nd.loginOk u p then
-      let (nd', id, isNew) := nd.localLoginCore u n.time n.nextId
-      ({ n.upd y (fun _ => nd') with nextId := if isNew then n.nextId + 1 else n.nextId }, some id)
+      ((n.upd y (fun nd => (nd.localLoginCore u n.time n.nextId).1)).bump
+          (if (nd.localLoginCore u n.time n.nextId).2.2 then n.nextId + 1 else n.nextId),
+       some (nd.localLoginCore u n.time n.nextId).2.1)
     else (n, none)
 
 /-! ### one operation -/
@@ -387,7 +419,7 @@ def opAddUser (n : Net) (y : Nat) (u p : String) (adm : Bool) : Net × Out :=
   | some nd =>
     if !nd.isOn then (n, .failure)
     else if nd.canUm && (nd.findUser u).isNone then
-      (n.upd y (fun nd => { nd with users := nd.users ++ [{ name := u, password := p, admin := adm }] }), .success)
+      (n.upd y (Node.addUser { name := u, password := p, admin := adm }), .success)
     else (n, .failure)
 
 def opDisableUser (n : Net) (y : Nat) (u : String) : Net × Out :=
@@ -402,8 +434,7 @@ def opDisableUser (n : Net) (y : Nat) (u : String) : Net × Out :=
       if w.disabled then (n, .failure)
       -- `_is_last_admin`: the user is an enabled admin and the only one
       else if w.admin && (nd.users.filter (fun v => v.admin && !v.disabled)).length == 1 then (n, .failure)
-      else (n.upd y (fun nd => { nd with users := nd.users.map (fun v => if v.name == u then { v with disabled := true } else v) }),
-            .success)
+      else (n.upd y (Node.setDisabled u), .success)
 
 def opChangePassword (n : Net) (y : Nat) (u old new : String) : Net × Out :=
   match n.node y with
@@ -415,9 +446,7 @@ def opChangePassword (n : Net) (y : Nat) (u old new : String) : Net × Out :=
     | none => (n, .failure)
     | some w =>
       if w.password == old then
-        (logoutUser
-          (n.upd y (fun nd => { nd with users := nd.users.map (fun v => if v.name == u then { v with password := new } else v) }))
-          y u, .success)
+        (logoutUser (n.upd y (Node.setPassword u new)) y u, .success)
       else (n, .failure)
 
 def opLocalLogin (n : Net) (y : Nat) (u p : String) : Net × Out :=
@@ -439,8 +468,7 @@ def opLocalCmd (n : Net) (y : Nat) (u p : String) (k : Nat) : Net × Out :=
     if !nd.isOn then (n, .failure) else
     match (localLogin n y u p).2 with
     | some id =>
-      (((localLogin n y u p).1.upd y (Node.addConn ⟨id, none⟩)).upd y (fun nd => if nd.term.running then (nd.exec k).1 else nd),
-       .success)
+      (((localLogin n y u p).1.upd y (Node.addConn ⟨id, none⟩)).upd y (Node.localExec k), .success)
     | none => ((localLogin n y u p).1, .success)
 
 def opRemoteLogin (n : Net) (x y : Nat) (u p : String) : Net × Out :=
@@ -455,8 +483,7 @@ def opRemoteLogin (n : Net) (x y : Nat) (u p : String) : Net × Out :=
       -- Terminal.receive on y: SSH_MSG_USERAUTH_REQUEST -> remote_login -> _login(local=False)
       if b.loginOk u p && decide (b.rem.length < b.maxRemote) then
         let n1 : Net :=
-          { n.upd y (fun b => ({ b with rem := b.rem ++ [⟨n.nextId, u, n.time, x⟩] } : Node).addConn ⟨n.nextId, some x⟩) with
-            nextId := n.nextId + 1 }
+          (n.upd y (fun b => (b.addSession ⟨n.nextId, u, n.time, x⟩).addConn ⟨n.nextId, some x⟩)).bump (n.nextId + 1)
         -- SSH_MSG_USERAUTH_SUCCESS back to x (x's terminal must be RUNNING to see it)
         if canDeliver n1 y x then (n1.upd x (Node.addConn ⟨n.nextId, some y⟩), .success) else (n1, .failure)
       else (n, .failure)
@@ -479,9 +506,8 @@ def opRemoteCmd (n : Net) (x y : Nat) (k : Nat) : Net × Out :=
         -- Terminal.receive on y: SSH_MSG_SERVICE_REQUEST -> _check_client_connection
         if b.hasSession c.id then
           if b.hasConn c.id then
-            (n.upd y (fun b => ((b.touch c.id n.time).exec k).1),
-             if canDeliver (n.upd y (fun b => ((b.touch c.id n.time).exec k).1)) y x then ((b.touch c.id n.time).exec k).2
-             else .failure)
+            (n.upd y (Node.remoteExec c.id n.time k),
+             if canDeliver (n.upd y (Node.remoteExec c.id n.time k)) y x then ((b.touch c.id n.time).exec k).2 else .failure)
           else (n, .failure)
         else (disconnect n.fuel n y c.id, .failure)
 
@@ -499,7 +525,7 @@ def opSvc (n : Net) (y : Nat) (w : SvcName) (v : Verb) : Net × Out :=
   | none => (n, .unreachable)
   | some nd =>
     if !nd.isOn then (n, .failure) else
-    if (match v.needs with | some q => (nd.getSvc w).st == q | none => true) then
+    if v.allowed (nd.getSvc w).st then
       (n.upd y (fun nd => nd.setSvc w ((nd.getSvc w).apply v nd.restartDur).1), boolOut ((nd.getSvc w).apply v nd.restartDur).2)
     else (n, .failure)
 
@@ -518,7 +544,7 @@ def opReset (n : Net) (y : Nat) : Net × Out :=
   match n.node y with
   | none => (n, .unreachable)
   | some nd =>
-    if !nd.isOn then (n, .failure) else (n.upd y (fun nd => ({ nd with resetting := true } : Node).powerOff.1), .success)
+    if !nd.isOn then (n, .failure) else (n.upd y Node.resetOff, .success)
 
 def step (n : Net) : Op → Net × Out
   | .addUser y u p adm => opAddUser n y u p adm
